@@ -326,3 +326,54 @@ Proof.
   apply goodb_good in Hg. destruct (actionb_ok dom _ _ m a Hg Ha) as [Hok _].
   apply (action_ok_distinct _ _ m a Hok).
 Qed.
+
+(* ---------- the side condition in words ----------
+   For a well-formed action, a mapping m passes [renaming_ok] as soon as
+     (i)   it moves parameters only,
+     (ii)  it is injective on the parameters,
+     (iii) a moved parameter lands on the name of another parameter (overlap is fine) or on a name that the
+           action does not mention, that is not quantified in it and that is not a constant,
+     (iv)  a moved parameter is not itself the name of a constant.
+   Fresh names, permutations of the parameter names and chains ?a->?b->?c->fresh are instances. *)
+Definition well_formed (a : maction) : bool := actionb (names_action a) (bound_maction a) a.
+
+Lemma forallb_intro {A} (f : A -> bool) l : (forall x, In x l -> f x = true) -> forallb f l = true.
+Proof. intros H. apply forallb_forall. exact H. Qed.
+
+Theorem renaming_ok_intro (dom : mdomain) (a : maction) (m : renaming) :
+  let ps := dkeys (ma_sig a) in
+  well_formed a = true ->
+  (forall n, ~ In n ps -> rn m n = n) ->
+  (forall x y, In x ps -> In y ps -> rn m x = rn m y -> x = y) ->
+  (forall p, In p ps -> rn m p <> p ->
+     (In (rn m p) ps \/ ~ In (rn m p) (names_action a)) /\
+     ~ In (rn m p) (bound_maction a) /\ dmem (d_consts dom) (rn m p) = false /\ dmem (d_consts dom) p = false) ->
+  renaming_ok dom a m = true.
+Proof.
+  intros ps Hwf Hmove Hinj Hland. unfold renaming_ok. fold (well_formed a). rewrite Hwf. simpl.
+  unfold goodb. apply andb_true_iff. split.
+  - apply forallb_intro. intros x Hx. apply forallb_intro. intros y Hy.
+    destruct (String.eqb (rn m x) (rn m y)) eqn:E; [|reflexivity]. simpl.
+    apply String.eqb_eq in E. apply String.eqb_eq.
+    destruct (in_dec string_dec x ps) as [Px|Px]; destruct (in_dec string_dec y ps) as [Py|Py].
+    + apply Hinj; assumption.
+    + rewrite (Hmove y Py) in E.
+      destruct (string_dec (rn m x) x) as [Ex|Ex]; [congruence|].
+      destruct (Hland x Px Ex) as [[Hin|Hnot] _].
+      * rewrite E in Hin. contradiction.
+      * rewrite E in Hnot. contradiction.
+    + rewrite (Hmove x Px) in E.
+      destruct (string_dec (rn m y) y) as [Ey|Ey]; [congruence|].
+      destruct (Hland y Py Ey) as [[Hin|Hnot] _].
+      * rewrite <- E in Hin. contradiction.
+      * rewrite <- E in Hnot. contradiction.
+    + rewrite (Hmove x Px), (Hmove y Py) in E. exact E.
+  - apply forallb_intro. intros n Hn.
+    destruct (String.eqb (rn m n) n) eqn:E; [reflexivity|]. simpl.
+    assert (Hne : rn m n <> n) by (intros H; rewrite H, String.eqb_refl in E; discriminate).
+    destruct (in_dec string_dec n ps) as [Pn|Pn]; [|exfalso; apply Hne; apply Hmove; exact Pn].
+    destruct (Hland n Pn Hne) as [_ [Hb [Hc1 Hc2]]].
+    rewrite Hc1, Hc2.
+    destruct (str_in (rn m n) (bound_maction a)) eqn:Eb; [|reflexivity].
+    apply str_in_In in Eb. contradiction.
+Qed.
